@@ -125,6 +125,7 @@ type runState struct {
 	seeds map[int]byte // current key seed per agent index
 	req   uint32
 	lmod  []LSpec // listeners as configured by the operator (after edits), in creation order
+	lorig map[string]HTTPSpec // HTTP listeners that were edited: the configuration before the first edit
 	https []*handlers.HTTP
 }
 
@@ -232,6 +233,12 @@ func (r *runState) apply(op Op) bool {
 				eff.UserAgent, eff.Headers, eff.Uris = e.HTTP.UserAgent, e.HTTP.Headers, e.HTTP.Uris
 				eff.Proxy, eff.PType, eff.PHost, eff.PPort, eff.PUser, eff.PPass = e.HTTP.Proxy, e.HTTP.PType, e.HTTP.PHost, e.HTTP.PPort, e.HTTP.PUser, e.HTTP.PPass
 				send := eff
+				if r.lorig == nil {
+					r.lorig = map[string]HTTPSpec{}
+				}
+				if _, ok := r.lorig[e.Name]; !ok {
+					r.lorig[e.Name] = *r.lmod[i].HTTP
+				}
 				w.TS.DispatchEvent(r.listenerPk(packager.Type.Listener.Edit, httpInfo(LSpec{Kind: "http", Name: e.Name, HTTP: &send})))
 				r.lmod[i].HTTP = &eff
 				return true
